@@ -131,7 +131,14 @@ def size_cases(limit=None, sub="chuk_mcp", extra=()):
     if key in _CASES:
         return _CASES[key]
     s = {0, 1, 2}
-    for c in tuple(source_ints(sub)) + tuple(extra):
+    # string-size families (limit >= 70000) follow the SOURCE's constants up to MAX_SIZE: a 1 MiB threshold written
+    # into the package is straddled too; count families (small limits) and the environment sizes keep the limit
+    lim_src = MAX_SIZE if lim >= 70000 else lim
+    for c in tuple(source_ints(sub)):
+        for w in (c - 1, c, c + 1):
+            if 0 <= w <= lim_src:
+                s.add(w)
+    for c in tuple(extra):
         for w in (c - 1, c, c + 1):
             if 0 <= w <= lim:
                 s.add(w)
